@@ -351,3 +351,51 @@ Theorem C10_source_fixed_cells_and_finish_any_columns
       (fun _ => False).
 Proof. exact (GF.gen_fixed_model T cin rc cextra tf sf bc sx W sy O HO Hstyle Hbc Hbs Hw HR HB cells cw). Qed.
 Print Assumptions C10_source_fixed_cells_and_finish_any_columns.
+
+(* the head of fixed_table_layout, REGENERATED from the source on every run (gen/GenTable.v, fixed_head_sizes: the
+   statements  num_columns = max(len(all_columns), sum(cell.colspan for cell in first_row_cells))  and
+   column_widths = [None] * num_columns).  For every list of <col> elements and every list of first-row cells (objects
+   whose colspan is a natural number) the two statements never raise; num_columns is the larger of the number of
+   <col> elements and of the sum of the colspans, column_widths the fresh list of that many None. *)
+Require WV.proofs.C10_gen_head.
+Module GH := WV.proofs.C10_gen_head.
+
+Theorem C10_source_fixed_head_sizes
+  (T : Type) (cin : T -> list (string * Py.val)) (rc : T -> GM.rcell)
+  (Hcs : forall t, Py.lookup "colspan"%string (cin t) = Py.VNum (qnat (GM.r_span (rc t))))
+  (O : Py.qops) (HO : Py.ops_ok O) (cols : list Py.val) (cells : list T) :
+  Py.run O GenTable.fixed_head_sizes_body
+      [("all_columns"%string, Py.VList cols); ("first_row_cells"%string, Py.VList (map (fun t => Py.VObj (cin t)) cells))]
+      (fun rho r => r = None /\
+         Py.lookup "num_columns"%string rho = Py.VNum (qnat (Nat.max (List.length cols) (GR.spansT T rc cells))) /\
+         Py.lookup "column_widths"%string rho = Py.VList (repeat Py.VNone (Nat.max (List.length cols) (GR.spansT T rc cells))) /\
+         Py.lookup "all_columns"%string rho = Py.VList cols /\
+         Py.lookup "first_row_cells"%string rho = Py.VList (map (fun t => Py.VObj (cin t)) cells))
+      (fun _ => False).
+Proof. exact (GH.gen_head_sizes T cin rc Hcs O HO cols cells). Qed.
+Print Assumptions C10_source_fixed_head_sizes.
+
+(* ... and these are the values of the hand model and of the free variables of the tied slice above: num_columns is
+   the length of fixed_init (whatever widths the <col> elements declare), first_row_cells is untouched - both as in the
+   environment GF.env0 from which C10_source_fixed_cells_and_finish runs the rest of the function - and column_widths
+   is fixed_init before any <col> width is known (same length); the <col> loop between the two (not translated)
+   stores the used width of each <col> element that has one *)
+Theorem C10_source_fixed_head_feeds_slice
+  (T : Type) (cin : T -> list (string * Py.val)) (rc : T -> GM.rcell) (tf : list (string * Py.val))
+  (O : Py.qops) (HO : Py.ops_ok O)
+  (Hcs : forall t, Py.lookup "colspan"%string (cin t) = Py.VNum (qnat (GM.r_span (rc t))))
+  (W : Q) (decls : list decl) (cols : list Py.val) (cells : list T) :
+  List.length decls = List.length cols ->
+  Py.run O GenTable.fixed_head_sizes_body
+      [("all_columns"%string, Py.VList cols); ("first_row_cells"%string, Py.VList (map (fun t => Py.VObj (cin t)) cells))]
+      (fun rho r => r = None /\
+         let e0 := GF.env0 T cin tf cells (fixed_init W decls (GF.fcells T rc cells)) in
+         Py.lookup "num_columns"%string rho = Py.lookup "num_columns"%string e0 /\
+         Py.lookup "first_row_cells"%string rho = Py.lookup "first_row_cells"%string e0 /\
+         List.length (fixed_init W decls (GF.fcells T rc cells))
+           = List.length (fixed_init W (repeat DAuto (List.length decls)) (GF.fcells T rc cells)) /\
+         Py.lookup "column_widths"%string rho
+           = Py.VList (map GM.voq (fixed_init W (repeat DAuto (List.length decls)) (GF.fcells T rc cells))))
+      (fun _ => False).
+Proof. exact (GH.gen_head_feeds_slice T cin rc tf O HO Hcs W decls cols cells). Qed.
+Print Assumptions C10_source_fixed_head_feeds_slice.
